@@ -317,7 +317,9 @@ EndBlock(p) ==
         /\ lostc' = {l \in lostc : l.e # h}
   /\ h' = h + 1 /\ ntx' = 0 /\ lockp' = p
   /\ UNCHANGED <<stake, deleg, bond, reg, supply, tstake, tdeleg, tbond, burned, xst, xbond, pool, rew>>
+  \* coin: an unbonding and an unstaking timer fire at this same height ("same": for one and the same account)
   /\ Log([op |-> "end", h |-> h, lp |-> lockp, st |-> Proj, lost |-> lostc, xst |-> xst,
+          coin |-> [any |-> ubtimer[h] # {} /\ ustimer[h] # {}, same |-> ubtimer[h] \cap ustimer[h] # {}],
           tot |-> [supply |-> supply, tstake |-> tstake, tdeleg |-> tdeleg, tbond |-> tbond, burned |-> burned],
           tot0 |-> [supply |-> Cardinality(Accts) * MaxAmt + Cardinality(Ext) * ExtBond,
                     tstake |-> Cardinality(Ext) * ExtBond, tdeleg |-> Cardinality(Ext) * ExtDeleg,
